@@ -30,8 +30,70 @@ scipy.sparse.csgraph.shortest_path scipy.sparse.csgraph.connected_components sci
 scipy.optimize.linear_sum_assignment sklearn.metrics.pairwise.pairwise_distances sklearn.metrics.pairwise_distances
 scipy.spatial.distance.cityblock scipy.special.erfc scipy.stats.norm.cdf scipy.stats.norm.pdf
 scipy.stats.multivariate_normal.pdf scipy.stats.multivariate_normal.cdf
-operator.itemgetter operator.attrgetter os.environ.get
 """.split())
+
+# --- `out` accepted POSITIONALLY by functions of FRESH_FUNCS: index of the parameter.  A call with that many positional
+#     arguments writes the argument and returns it.  (ufuncs: index = number of inputs.)  Checked against the installed numpy's
+#     own signatures on every run (c19.self_test: `table_out_positions`).
+OUT_POS = {
+    # unary ufuncs
+    "np.abs": 1, "np.absolute": 1, "np.exp": 1, "np.log": 1, "np.sqrt": 1, "np.sin": 1, "np.cos": 1, "np.arcsin": 1,
+    "np.arccos": 1, "np.ceil": 1, "np.floor": 1, "np.isfinite": 1, "np.isinf": 1, "np.isnan": 1, "np.logical_not": 1,
+    "np.sign": 1, "np.square": 1, "np.expm1": 1, "np.log1p": 1, "np.log2": 1, "np.log10": 1, "np.tan": 1, "np.arctan": 1,
+    "np.sinh": 1, "np.cosh": 1, "np.tanh": 1, "np.negative": 1, "np.reciprocal": 1, "np.trunc": 1, "np.rint": 1, "np.fabs": 1,
+    # binary ufuncs
+    "np.maximum": 2, "np.minimum": 2, "np.multiply": 2, "np.divide": 2, "np.add": 2, "np.subtract": 2, "np.matmul": 2,
+    "np.power": 2, "np.logical_and": 2, "np.logical_or": 2, "np.arctan2": 2, "np.hypot": 2, "np.mod": 2, "np.remainder": 2,
+    "np.floor_divide": 2, "np.true_divide": 2,
+    # reductions and other functions with an `out` parameter
+    "np.sum": 3, "np.prod": 3, "np.mean": 3, "np.std": 3, "np.var": 3, "np.cumsum": 3, "np.nansum": 3, "np.clip": 3,
+    "np.max": 2, "np.min": 2, "np.amax": 2, "np.amin": 2, "np.any": 2, "np.all": 2, "np.argmax": 2, "np.argmin": 2,
+    "np.round": 2, "np.dot": 2, "np.outer": 2, "np.concatenate": 2, "np.stack": 2, "np.median": 2, "np.nanmax": 2,
+    "np.nanmin": 2, "np.trace": 5, "np.percentile": 3, "np.quantile": 3,
+}
+# --- `copy` accepted positionally (index); by keyword it is recognised on every function of FRESH_FUNCS / READONLY_FUNCS.
+#     `copy` anything but the literal True: the result may be the first argument itself, converted in place.
+COPY_POS = {"np.nan_to_num": 1, "np.ma.masked_less": 2}
+# --- keywords that let a routine use its inputs as scratch space (anything but the literal False: all arguments written)
+INPLACE_KW = set("overwrite overwrite_input overwrite_a overwrite_b overwrite_x overwrite_y inplace".split())
+# --- the same for methods of FRESH_METHODS (index among the method's own positional arguments)
+METHOD_OUT_POS = {"clip": 2, "sum": 2, "cumsum": 2, "prod": 2, "mean": 2, "std": 2, "var": 2, "dot": 1, "round": 1, "max": 1,
+                  "min": 1, "any": 1, "all": 1, "argmin": 1, "argmax": 1, "trace": 4}
+METHOD_COPY_POS = {"astype": 4}                # astype(dtype, order, casting, subok, copy)
+
+# --- functions returning a read-only accessor (calling it yields an element / attribute of its argument)
+GETTER_FUNCS = set("operator.itemgetter operator.attrgetter".split())
+
+# --- library-level state: function -> (name of the state, reads it, writes it); `warnings.warn` is not listed (warnings are not
+#     results).  plt.* is handled apart (the PYPLOT global).
+STATE_FUNCS = {
+    "np.seterr": ("numpy error state", True, True), "np.geterr": ("numpy error state", True, False),
+    "np.errstate": ("numpy error state", True, True), "np.seterrcall": ("numpy error state", True, True),
+    "np.set_printoptions": ("numpy print options", False, True), "np.get_printoptions": ("numpy print options", True, False),
+    "np.printoptions": ("numpy print options", True, True), "np.setbufsize": ("numpy error state", True, True),
+    "warnings.filterwarnings": ("warnings filters", False, True), "warnings.simplefilter": ("warnings filters", False, True),
+    "warnings.resetwarnings": ("warnings filters", False, True), "warnings.catch_warnings": ("warnings filters", True, True),
+    "os.environ.get": ("os.environ", True, False), "os.getenv": ("os.environ", True, False),
+    "os.putenv": ("os.environ", False, True), "os.unsetenv": ("os.environ", False, True),
+    "os.getcwd": ("working directory", True, False), "os.chdir": ("working directory", False, True),
+    "sys.setrecursionlimit": ("recursion limit", False, True), "sys.getrecursionlimit": ("recursion limit", True, False),
+    "time.time": ("clock", True, False), "time.perf_counter": ("clock", True, False), "time.monotonic": ("clock", True, False),
+    "time.process_time": ("clock", True, False), "datetime.datetime.now": ("clock", True, False),
+    "datetime.datetime.today": ("clock", True, False), "datetime.date.today": ("clock", True, False),
+    "os.urandom": ("os entropy", True, False), "os.getpid": ("process id", True, False),
+    "np.random.seed": ("numpy global generator", False, True), "np.random.set_state": ("numpy global generator", False, True),
+    "np.random.get_state": ("numpy global generator", True, False), "random.seed": ("python global generator", False, True),
+    "random.setstate": ("python global generator", False, True), "random.getstate": ("python global generator", True, False),
+}
+# --- library objects whose mere evaluation reads module-level state
+STATE_READS = {"os.environ": "os.environ", "sys.argv": "sys.argv", "sys.path": "sys.path", "plt.rcParams": "<pyplot>",
+               "mpl.rcParams": "<pyplot>"}
+PYPLOT_STATE_FUNCS = set("mpl.use mpl.rc mpl.rcdefaults mpl.rc_context mpl.interactive mpl.rc_file".split())
+
+# --- names of parameters / instance attributes documented as CALLER-SUPPLIED callables (PersistenceImager(weight=, kernel=),
+#     images._transform(weight, kernel)): calls through them are assumed read-only (ASSUMPTIONS).  A call through any other
+#     value the translator cannot resolve is an unknown call.
+CALLER_CALLABLES = set("weight kernel".split())
 
 # --- functions returning a VIEW / the very object (alias of their first argument); `np.array(x)` is handled apart
 VIEW_FUNCS = set("""
